@@ -238,6 +238,7 @@ def run(ctx):
     interpreter_stream(ctx)
     precond_stream(ctx)
     bigcost_stream(ctx)
+    reported_strategy_stream(ctx)
 
 
 def bigcost_stream(ctx):
@@ -303,6 +304,46 @@ def precond_stream(ctx):
         ctx.evaluations += 1
         ctx.case(('precond-views', cfg.world, cfg.k, cfg.colocate, str(cfg.arch)), nontrivial=cfg.world > 1)
         ctx.count('precond-views')
+
+
+def reported_strategy_stream(ctx):
+    """the strategy KFACPreconditioner reports for a float fraction matches the assignment it builds, for every world
+    size (1/n is not exactly representable: 49 * (1/49) < 1): MEM-OPT requests (1/n or the shortcut 0) are MEM_OPT with one
+    gradient worker and no inverse broadcast, 1.0 is COMM_OPT, k/n in between is HYBRID_OPT.  World size and rank are
+    supplied by patching get_world_size / get_rank / new_group (no process group of that size is created)."""
+    import torch
+    import torch.distributed as dist
+    import kfac.preconditioner as kp
+    from kfac.enums import DistributedStrategy as DS
+    rng = ctx.rng
+    worlds = sorted(set([2, 3, 4, 6, 7, 12, 49, 98, 103, 107, 161] + [rng.randrange(2, 260) for _ in range(ctx.budget(12, 120))]))
+    if ctx.tier == 'thorough':
+        worlds = list(range(2, 261))
+    orig = (kp.get_world_size, kp.get_rank, dist.new_group)
+    try:
+        for w in worlds:
+            ks = gen.divisors(w)
+            for k, frac in [(1, 1.0 / w), (1, 0), (w, 1.0)] + [(k, k / w) for k in ks[1:-1][:2]]:
+                r = rng.randrange(w)
+                kp.get_world_size = lambda *a, **kw_: w
+                kp.get_rank = lambda *a, **kw_: r
+                dist.new_group = lambda *a, **kw_: None
+                case = {'stream': 'reported-strategy', 'world': w, 'grad_worker_fraction': frac, 'rank': r}
+                try:
+                    p = kp.KFACPreconditioner(torch.nn.Sequential(torch.nn.Linear(2, 2), torch.nn.Linear(2, 2)), grad_worker_fraction=frac)
+                except Exception as e:  # noqa: BLE001
+                    ctx.fail(f'fraction {frac!r} on {w} ranks rejected: {type(e).__name__}: {e}', case, 'strategy-rejected')
+                    continue
+                want = DS.COMM_OPT if k == w else (DS.MEM_OPT if k == 1 else DS.HYBRID_OPT)
+                a = p._assignment
+                got = (p.distributed_strategy, a.broadcast_inverses(), a.broadcast_gradients())
+                if got != (want, k > 1, k < w):
+                    ctx.fail(f'{w} ranks, fraction {frac!r} ({k} gradient workers): strategy / broadcast_inverses / broadcast_gradients = '
+                             f'{got}, expected {(want, k > 1, k < w)}', case, 'reported-strategy')
+                ctx.evaluations += 1
+            ctx.count('reported-strategy-worlds')
+    finally:
+        kp.get_world_size, kp.get_rank, dist.new_group = orig
 
 
 def history_stream(ctx):
@@ -382,6 +423,38 @@ def interpreter_stream(ctx):
             ctx.fail('sub-interpreter failed: ' + p.stderr[-300:], {'seed': seed}, 'interpreter-failed')
             return
         outs.append(json.loads(p.stdout.strip().splitlines()[-1]))
+    # ... and through KFACPreconditioner: the registration order of the layers (hence the order of the cost dictionary and
+    # the tie-breaking of the greedy assignment) does not depend on the interpreter either — models mixing Conv2d and Linear
+    # layers of exactly tied cost
+    code2 = (
+        'import sys, json, warnings; warnings.filterwarnings(\"ignore\"); sys.path.insert(0, sys.argv[1])\n'
+        'import torch, torch.distributed as dist\n'
+        'import kfac.preconditioner as kp\n'
+        'w, r = int(sys.argv[2]), int(sys.argv[3])\n'
+        'kp.get_world_size = lambda *a, **k: w; kp.get_rank = lambda *a, **k: r; dist.new_group = lambda *a, **k: None\n'
+        'out = []\n'
+        'for frac in (1.0, 1.0 / w, 0.5):\n'
+        '    torch.manual_seed(0)\n'
+        '    m = torch.nn.Sequential(torch.nn.Conv2d(4, 8, 1), torch.nn.Flatten(), torch.nn.Linear(8, 8), torch.nn.Linear(4, 8), torch.nn.Conv2d(8, 8, 1, bias=False), torch.nn.Linear(8, 8))\n'
+        '    p = kp.KFACPreconditioner(m, grad_worker_fraction=frac)\n'
+        '    a = p._assignment\n'
+        '    out.append([[n for n, _ in p._layers.values()], {l: {f: a.inv_worker(l, f) for f in a.get_factors(l)} for l in a.get_layers()}])\n'
+        'print(json.dumps(out))\n')
+    pouts = []
+    for seed in ('1', '2', '12345', '77'):
+        import os
+        env = dict(os.environ, PYTHONHASHSEED=seed)
+        p = subprocess.run([sys.executable, '-c', code2, __import__('common').REPO, '4', '1'], capture_output=True, text=True, env=env)
+        if p.returncode != 0:
+            ctx.fail('sub-interpreter failed: ' + p.stderr[-300:], {'seed': seed, 'stream': 'preconditioner'}, 'interpreter-failed')
+            break
+        pouts.append(json.loads(p.stdout.strip().splitlines()[-1]))
+    for o in pouts[1:]:
+        if o != pouts[0]:
+            ctx.fail('KFACPreconditioner built in separate interpreters (different string-hash seeds) registers the layers in different '
+                     f'orders or derives different inverse workers: {o[0][0]} / {pouts[0][0][0]}', {'stream': 'preconditioner', 'world': 4}, 'interpreter-dependent-preconditioner')
+            break
+    ctx.evaluations += 1
     for i, c in enumerate(cases):
         for o in outs[1:]:
             if o[i][0] != outs[0][i][0]:
